@@ -437,9 +437,40 @@ def fold_new_constants(prog) -> int:
     return total
 
 
+class _Spellings(ast.NodeTransformer):
+    """dict(a=1, b=2) -> {'a': 1, 'b': 2};  dict() -> {};  list() -> [];  tuple() -> ()"""
+    def visit_Call(self, node):
+        self.generic_visit(node)
+        if isinstance(node.func, ast.Name) and not node.args:
+            if node.func.id == "dict" and all(k.arg is not None for k in node.keywords):
+                new = ast.Dict(keys=[ast.Constant(value=k.arg) for k in node.keywords], values=[k.value for k in node.keywords])
+            elif node.func.id == "list" and not node.keywords:
+                new = ast.List(elts=[], ctx=ast.Load())
+            elif node.func.id == "tuple" and not node.keywords:
+                new = ast.Tuple(elts=[], ctx=ast.Load())
+            else:
+                return node
+            for x in ast.walk(new):
+                if not hasattr(x, "lineno"):
+                    ast.copy_location(x, node)
+                if hasattr(node, "_module") and not hasattr(x, "_module"):
+                    x._module = node._module
+            return new
+        return node
+
+
+def canonical_spellings(prog) -> None:
+    for m in prog.modules.values():
+        shadowed = any(isinstance(n, (ast.FunctionDef, ast.ClassDef)) and n.name in ("dict", "list", "tuple") for n in ast.walk(m.tree)) or any(
+            isinstance(n, ast.Name) and n.id in ("dict", "list", "tuple") and isinstance(n.ctx, ast.Store) for n in ast.walk(m.tree))
+        if not shadowed:
+            m.tree = _Spellings().visit(m.tree)
+
+
 def run(prog) -> int:
     from .inline import relink
 
+    canonical_spellings(prog)
     folded = fold_new_constants(prog)
     for m in prog.modules.values():
         relink(m)
